@@ -63,7 +63,7 @@ theorem strict_step_touches_client_only_as_source_does (w : Strict) (op : Op) (h
   cases op with
   | setHdr k v => simp only [Op.method] at h; exact absurd h (by decide)
   | delHdr k => simp only [Op.method] at h; exact absurd h (by decide)
-  | writeHeader n => simp only [Strict.step]; split <;> rfl
+  | writeHeader n => simp only [Strict.step]; (repeat' split) <;> rfl
   | write bs => simp only [Strict.step]; split <;> rfl
   | flush => rfl
   | panic => exact absurd rfl hop
